@@ -210,6 +210,38 @@ class Interp:
                     return None
                 b.update(m)
             return b
+        if k == "pslice":
+            if v is OPAQUE:
+                raise Unknown("slice pattern against opaque value")
+            if isinstance(v, tuple) and v[:1] == ("list",):
+                items = list(v[1])
+            elif isinstance(v, MutList):
+                items = list(v)
+            elif isinstance(v, tuple) and v[:1] == ("bytesof",):
+                items = list(v[1])
+            else:
+                raise Unknown("slice pattern against %r" % (v,))
+            pats = p["e"]
+            rest = [i for i, q in enumerate(pats) if q["k"] == "prest" or (q["k"] == "pid" and q.get("sub", {}).get("k") == "prest")]
+            b = {}
+            if not rest:
+                if len(items) != len(pats):
+                    return None
+                pairs = zip(items, pats)
+            else:
+                ri = rest[0]
+                head, tail = pats[:ri], pats[ri + 1:]
+                if len(items) < len(head) + len(tail):
+                    return None
+                if pats[ri]["k"] == "pid":
+                    b[pats[ri]["n"]] = ("list", items[len(head):len(items) - len(tail)])
+                pairs = list(zip(items[:len(head)], head)) + list(zip(items[len(items) - len(tail):], tail)) if tail else list(zip(items[:len(head)], head))
+            for x, q in pairs:
+                m = self.match(x, q)
+                if m is None:
+                    return None
+                b.update(m)
+            return b
         if k == "ppath":
             return self._match_path(v, p["p"], None, p)
         if k == "pts":
